@@ -175,8 +175,7 @@ static bool doAdd(const char *what, int fill, int junk, const Bytes &s, const Ad
   AddRes g = runAdd(fill, junk, s, true, f);
   if (g.fault) {
     std::string cls = classKey(u);
-    C.fail(cls == "other" ? std::string("C16:") + what + ":read-past-nul" : "C16:" + cls,
-           "%s read beyond the terminator of the source string (%zu bytes)", what, s.size());
+    C.fail(std::string("C16:") + what + ":source-overread", "%s read beyond the terminator of the source string (%zu bytes, input class %s)", what, s.size(), cls.c_str());
     C.out("fault readPastNul"); C.count("fault_readPastNul"); return false;
   }
   r = runAdd(fill, junk, s, false, f, keep);
@@ -635,6 +634,27 @@ int main(int argc, char **argv) {
                         "rtvar 0 255 1 0 3 205 0 e282ac", "rtvar 0 255 1 0 4 205 0 e282ac", "getvar 1 255 0 205 0 0401c3a9", "getvar 0 255 0 205 0 0400c300", "getvar 0 255 0 205 0 0501414243", "getvar 0 255 0 205 0 0700c300e90041",
                         "getstr 1 3 255 0 205 0 414243", "rtbuf 0 205 0 0102 0304", "getbuf 2 1 1 205 0 0a0b0c0d", "getbuf 2 0 3 205 0 0a0b0c0d", "getbuf0 2 1 0 0a0b0c0d", "addbuf 221 0 0102030405", "rtvar2 0 8 205 0 c3a941", "addvar2 222 0 4142", "getstr1 0 0 205 0 -", "addais 223 5 0 4142", "addstr 223 0 255 0 4142"})
     exec(l);
+  // 0b. never read behind the terminator, every add function: strings ending in a truncated 2-/3-/4-/5-/6-byte lead, a lead followed
+  //     by a non-continuation byte, the lead at every position near the end, after prefixes with and without a complete multi-byte
+  //     character (directed early: the generic memcheck replay runs a prefix of the op stream)
+  {
+    const std::vector<Bytes> pre = {{}, {'a'}, {'a', 'b'}, {0xC3, 0xA9}, {0xC3, 0xA9, 'a', 'b'}, {0xE2, 0x82, 0xAC}};
+    const std::vector<Bytes> cut = {{0xC3}, {0xE2}, {0xE2, 0x82}, {0xF0}, {0xF0, 0x9F}, {0xF0, 0x9F, 0x98}, {0xF8}, {0xF8, 0x88, 0x80}, {0xFC}, {0xFC, 0x84, 0x80, 0x80, 0x80},
+                                    {0xC3, 'x'}, {0xE2, 'x'}, {0xE2, 0x82, 'x'}, {0xF0, 0x9F, 'x'}, {0xF0, 'x', 'y'}};
+    const std::vector<Bytes> post = {{}, {'z'}, {'z', 'y'}};
+    for (auto &a : pre) for (auto &c : cut) for (auto &z : post) {
+      Bytes t = a; t.insert(t.end(), c.begin(), c.end()); t.insert(t.end(), z.begin(), z.end());
+      int junk = (int)R.below(256), fill = R.chance(1, 3) ? (int)R.range(200, 223) : 0;
+      std::string h = hx(t);
+      exec(fmt("addvar %d 255 1 0 %d %s", fill, junk, h.c_str()));
+      exec(fmt("addvar %d 255 0 %d %d %s", fill, (int)R.below(2), junk, h.c_str()));
+      exec(fmt("addvar2 %d %d %s", fill, junk, h.c_str()));
+      exec(fmt("addais %d %d %d %s", fill, (int)R.range(0, 12), junk, h.c_str()));
+      exec(fmt("addstr %d %d 255 %d %s", fill, (int)R.range(0, std::min(12, 223 - fill)), junk, h.c_str()));
+      if (z.empty()) exec(fmt("rtvar %d %d 1 1 %d 205 %d %s", fill, (int)R.range(0, 9), (int)R.range(0, 12), junk, h.c_str()));
+    }
+    C.sample("directed: every add function on strings ending in a truncated 2..6-byte lead / lead + non-continuation byte, lead at the last 1..3 positions, source in front of a PROT_NONE page");
+  }
   // 1. small scope, exhaustive: short strings over a small alphabet x small maxima x both policies x both units at tight fill levels
   {
     const std::vector<Bytes> atoms = {{0x41}, {0xC3, 0xA9}, {0xE2, 0x82, 0xAC}, {0xF0, 0x9F, 0x98, 0x80}, {0x80}, {0xE2}, {0xC3}, {0xFF}, {0xF0, 0x9F}};
